@@ -54,15 +54,15 @@ Print Assumptions C02_margin_tally_plurality.
 (* super-majority (the repaired formula q (p/f - 1), p = winner's share of the valid votes).  Guards: as above,
    the contest's candidate list is the assorter's list up to order, the tally and the assorter agree on which
    ballots are valid (sm_cards_ok: always true when every ballot has at most one mark and n_winners >= 1, and when
-   overvotes among listed candidates are dropped by the rule check), and there is at least one valid vote
-   (with none the code computes 0/0). *)
+   overvotes among listed candidates are dropped by the rule check).  A contest with no valid vote at all is
+   included: the code takes p = 0 there and the margin is 0 = 2 * (1/2) - 1. *)
 Theorem C02_margin_tally_supermajority :
   forall (enforce : bool) (n_winners : Z) (con : contest_id) (cs : list card) (w : cand) (losers candidates : list cand)
          (use_style : bool) (f : Q) (arg : option tally_dict),
   Forall wf_card cs -> Forall (fun x => x <> 0%Z) candidates -> In w candidates ->
   Permutation candidates (sm_cands w losers) -> w <> NO_CANDIDATE ->
   sm_cards_ok enforce n_winners con (sm_cands w losers) cs = true ->
-  0 < f -> (0 < valid_votes con (sm_cands w losers) cs)%Z ->
+  0 < f ->
   style_filter use_style con cs <> [] ->
   let T := mktally (tally_contest enforce n_winners con cs) true in
   arg = None \/ arg = Some T ->
@@ -140,19 +140,24 @@ Example C02_margin_tally_supermajority_nonvacuous :
   Forall wf_card ex_over /\ Forall (fun x => x <> 0) [1; 2; 3] /\ In 1 [1; 2; 3] /\
   Permutation [1; 2; 3] (sm_cands 1 [2; 3]) /\ 1 <> NO_CANDIDATE /\
   sm_cards_ok true 1 1 (sm_cands 1 [2; 3]) ex_over = true /\ (0 < 2 # 3)%Q /\
-  0 < valid_votes 1 (sm_cands 1 [2; 3]) ex_over /\ style_filter true 1 ex_over <> [] /\
+  style_filter true 1 ex_over <> [] /\
   sm_cards_ok false 1 1 (sm_cands 1 [2; 3]) ex_over = false.
 Proof.
   split; [exact ex_over_wf|]. split; [repeat constructor; lia|]. split; [simpl; auto|].
   split; [unfold sm_cands; simpl; apply Permutation_cons_append|].
   split; [unfold NO_CANDIDATE; lia|]. split; [reflexivity|]. split; [reflexivity|].
-  split; [reflexivity|]. split; [discriminate|reflexivity].
+  split; [discriminate|reflexivity].
 Qed.
 
-(* why the last-but-one guard is there: with no valid vote the code's formula is 0/0 (nan), while 2 * mean - 1 = 0 *)
+(* no valid vote at all (a blank ballot and an overvote): the margin from the tally is 0 (the code's -0.0),
+   equal to 2 * mean - 1 with mean 1/2; the hypotheses of C02_margin_tally_supermajority hold for these cards *)
 Example C02_margin_tally_supermajority_no_valid_vote :
   let cs := [mkcard [(1, [])] false; mkcard [(1, [(1, MBool true); (2, MInt 1)])] false] in
-  find_margin_from_tally None (Some (mktally (tally_contest true 1 1 cs) true)) SUPERMAJORITY 1 ALL_OTHERS 2 (1 # 2)%Q
-                         [1; 2; 3] = Val NaN /\
+  valid_votes 1 (sm_cands 1 [2; 3]) cs = 0 /\ sm_cards_ok true 1 1 (sm_cands 1 [2; 3]) cs = true /\
+  match find_margin_from_tally None (Some (mktally (tally_contest true 1 1 cs) true)) SUPERMAJORITY 1 ALL_OTHERS 2
+                               (1 # 2)%Q [1; 2; 3] with
+  | Val (Fin mg) => Qeq_bool mg 0
+  | _ => false
+  end = true /\
   close_x (mean true 1 (assort_sm 1 (1 # 2)%Q 1 (sm_cands 1 [2; 3])) cs) (Fin (1 # 2)%Q) = true.
-Proof. vm_compute. split; reflexivity. Qed.
+Proof. vm_compute. repeat split. Qed.
